@@ -20,7 +20,8 @@ RULE = ('(deep: a term nested 100..1000 levels - compound, list, parentheses, li
         'head set) classes; transitions = compiler invocations; non-trivial = the edited text is outside the language')
 ASSUMPTIONS = ['RefGrammar is a manual transcription of prolog.g4 (EOF required after the last clause); its agreement '
                'with the generated lexer+parser run in strict mode is measured on every text and reported',
-               'only single edits of bounded seeds are covered']
+               'only single edits of bounded seeds are covered',
+               'the reference grammar raises the interpreter recursion limit of its process to 6000 for its own use, so the edit families run with that limit; the deep family sets the default limit (1000) around each compilation']
 
 FOREIGN = ['#', '$', '&', '?', '"', '\\', '{', '}', '~', '^', '@', "'", '% comment without newline', '*',
            # characters outside ASCII that are not in the lexicon although something similar is: no-break and
